@@ -618,6 +618,12 @@ def run_spec(spec, R, timeout=20.0):
 
     def check_record(who, idx, name, rec, m0, m1):
         op = byname[name]
+        if op.ck in _C.L3_SENSITIVE and ("L3" in m1) != ("L3" in m0):
+            # the call overlapped the import that registers a converter for a field type of this class: converters
+            # are looked up per value, so part of the document may legitimately be converted the old way and part
+            # the new way - there is no single "alone" result to compare with
+            stats["overlapped_registration"] = stats.get("overlapped_registration", 0) + 1
+            return
         refs = [R[(name, fm)] for fm in admissible(op, m0, m1) if (name, fm) in R]
         if not refs:
             raise core.HarnessError(f"no reference for {name} under {m0}..{m1}")
